@@ -156,7 +156,7 @@ func parseIndexSection(sectionContents []byte, sectionsStart uint64, sos []secti
 	}
 	respSectionOffset := sectionsStart + respSectionRelOffset
 	makeRelativeToStream := func(offset, length uint64) (uint64, uint64, error) {
-		if offset+length > respso.Length {
+		if length > respso.Length || offset > respso.Length-length {
 			return 0, 0, errors.New("bundle.index: response length out-of-range")
 		}
 		return respSectionOffset + offset, length, nil
@@ -217,7 +217,7 @@ func parseIndexSectionWithVariants(sectionContents []byte, sectionsStart uint64,
 	}
 	respSectionOffset := sectionsStart + respSectionRelOffset
 	makeRelativeToStream := func(offset, length uint64) (uint64, uint64, error) {
-		if offset+length > respso.Length {
+		if length > respso.Length || offset > respso.Length-length {
 			return 0, 0, errors.New("bundle.index: response length out-of-range")
 		}
 		return respSectionOffset + offset, length, nil
@@ -488,6 +488,17 @@ func loadMetadata(bs []byte) (*meta, error) {
 		return nil, &LoadMetadataError{fmt.Errorf("bundle: Last section is not \"responses\""), FormatError, fallbackURL}
 	}
 
+	// Every section, known or not, must lie inside the bundle. Checking the
+	// running total here also keeps the offset arithmetic below and in the
+	// index parsers from wrapping around.
+	sectionsEnd := sectionsStart
+	for _, so := range sos {
+		if so.Length > uint64(len(bs))-sectionsEnd {
+			return nil, &LoadMetadataError{fmt.Errorf("bundle: section %q does not fit in the bundle.", so.Name), FormatError, fallbackURL}
+		}
+		sectionsEnd += so.Length
+	}
+
 	meta := &meta{
 		version:        ver,
 		primaryURL:     fallbackURL,
@@ -499,6 +510,8 @@ func loadMetadata(bs []byte) (*meta, error) {
 
 	for _, so := range sos {
 		if _, exists := knownSections[so.Name]; !exists {
+			// Step over the unknown section.
+			offset += so.Length
 			continue
 		}
 		if so.Name == "responses" {
